@@ -56,12 +56,18 @@ SKEL = {
     # a generic class whose FIRST base is a plain class
     "PlainB": ([], None),
     "Mix": (["T"], ["c", "PlainB", []]),
+    # several base classes: a plain class listed BEFORE the base that carries the type information (EXTRA_FIRST), Generic[..] listed first
+    "MixIt": ([], ["it", ["c", "Jet", []]]),
+    "MixBox": (["T"], ["c", "Box", [["tv", "T"]]]),
+    "GenLast": (["T"], ["c", "Box", [["tv", "T"]]]),
     "Coll": (["T"], None),  # registered collection class (operators for every iterable)
     "Info": ([], None),  # dataclass
 }
-ORDER = ["Trk", "Jet", "Evt", "Box", "Pair", "SubBox", "IntBox", "MyIt", "SubIt", "TrkIt", "Tag", "Tag2", "Swap", "HalfPair", "It2", "TagInts", "PlainB", "Mix"]
+ORDER = ["Trk", "Jet", "Evt", "Box", "Pair", "SubBox", "IntBox", "MyIt", "SubIt", "TrkIt", "Tag", "Tag2", "Swap", "HalfPair", "It2", "TagInts", "PlainB", "Mix", "MixIt", "MixBox", "GenLast"]
+EXTRA_FIRST = {"MixIt": "PlainB", "MixBox": "PlainB"}  # class MixIt(PlainB, Iterable[Jet]); class MixBox(PlainB, Box[T])
+GENERIC_FIRST = {"GenLast"}  # class GenLast(Generic[T], Box[T])
 RENAMES = {"Box": ["Container", "Collection", "Holder"], "Pair": ["Mapping", "Both"], "MyIt": ["Sequence", "Collection2", "Reversible"], "Jet": ["Hashable", "Sized"]}
-GEN1 = ["Box", "SubBox", "MyIt", "SubIt", "HalfPair", "TagInts"]
+GEN1 = ["Box", "SubBox", "MyIt", "SubIt", "HalfPair", "TagInts", "MixBox", "GenLast"]
 GEN2 = ["Pair", "Pair", "Tag", "Tag2", "Swap", "It2"]
 INFO_FIELDS = [["x", ["int"]], ["w", ["float"]], ["trk", ["c", "Trk", []]], ["trks", ["it", ["c", "Trk", []]]]]
 COLL_METHODS = [["Top", ["tv", "T"]], ["N", ["int"]], ["Rest", ["it", ["tv", "T"]]]]
@@ -92,6 +98,10 @@ def lookup_method(model, t, meth):
     for name, ret in model.get(cls, []):
         if name == meth:
             return ["any"] if any(v not in env for v in _tvs(ret)) else subst(ret, env)
+    if cls in EXTRA_FIRST:
+        r = lookup_method(model, ["c", EXTRA_FIRST[cls], []], meth)
+        if r is not None:
+            return r
     if base is not None and base[0] == "c":
         return lookup_method(model, subst(base, env), meth)
     return None
@@ -109,6 +119,11 @@ def all_methods(model, t):
         seen.add(name)
         # a type variable that nothing binds: nothing is known about the result
         out.append((name, ["any"] if any(v not in env for v in _tvs(ret)) else subst(ret, env)))
+    if cls in EXTRA_FIRST:
+        for name, ret in all_methods(model, ["c", EXTRA_FIRST[cls], []]):
+            if name not in seen:
+                seen.add(name)
+                out.append((name, ret))
     if base is not None and base[0] == "c":
         for name, ret in all_methods(model, subst(base, env)):
             if name not in seen:
@@ -161,7 +176,7 @@ def _type(draw, params, depth, top=True):
     if c == 6:
         return ["c", draw(st.sampled_from(GEN2)), [draw(_type(params, depth - 1, False)), draw(_type(params, depth - 1, False))]]
     if c == 7:
-        return ["c", draw(st.sampled_from(["IntBox", "TrkIt", "Info"])), []]
+        return ["c", draw(st.sampled_from(["IntBox", "TrkIt", "Info", "MixIt"])), []]
     if c == 8 and params:
         return ["it", ["tv", draw(st.sampled_from(params))]]
     if c == 9 and top:
@@ -199,7 +214,8 @@ def _model(draw):
     # the sources of the mixed-arity subclasses must be reachable from the event
     holder = draw(st.sampled_from(["Evt", "Jet"]))
     a, b = draw(st.sampled_from(_SCAL + [["c", "Trk", []]])), draw(st.sampled_from(_SCAL + [["c", "Jet", []]]))
-    m[holder].append(["mixed", draw(st.sampled_from([["c", "Tag", [a, b]], ["c", "Tag2", [a, b]], ["c", "Swap", [a, b]], ["c", "HalfPair", [a]], ["c", "It2", [a, b]], ["c", "TagInts", [b]], ["c", "Mix", [a]], ["c", "Mix", [b]]]))])
+    m[holder].append(["mixed", draw(st.sampled_from([["c", "Tag", [a, b]], ["c", "Tag2", [a, b]], ["c", "Swap", [a, b]], ["c", "HalfPair", [a]], ["c", "It2", [a, b]], ["c", "TagInts", [b]], ["c", "Mix", [a]], ["c", "Mix", [b]],
+                                                          ["c", "MixIt", []], ["c", "MixBox", [a]], ["c", "GenLast", [b]], ["c", "MixIt", []]]))])
     return m
 
 
@@ -536,6 +552,10 @@ def build(model, rename=None, partial=()):
         params, base = SKEL[cls]
         if base is None:
             b = f"(Generic[{', '.join(params)}])" if params else ""
+        elif cls in EXTRA_FIRST:
+            b = f"({EXTRA_FIRST[cls]}, {ann(base)})"
+        elif cls in GENERIC_FIRST:
+            b = f"(Generic[{', '.join(params)}], {ann(base)})"
         elif _tvars(base) != params:
             b = f"({ann(base)}, Generic[{', '.join(params)}])"  # own parameter list differs from the order of appearance in the base
         else:
